@@ -383,6 +383,9 @@ def urllib_quote(s):
 
 def replay(data):
     rp = data["violation"]["replay"]
+    if rp.get("replaced"):
+        print("history check of harness/props/c16.py (archive replaced under an unchanged time stamp); first archive:", rp["members"])
+        return 0
     tree = pyg.Tree()
     try:
         members = [(n, k, d.encode("latin-1")) for n, k, d in rp["members"]]
